@@ -105,12 +105,9 @@ func init() {
 		}
 		if s, isS := v.v.(SliceV); isS {
 			if _, isSlice := v.t.Underlying().(*types.Slice); isSlice {
-				out := make(SliceV, len(s))
-				copy(out, s)
-				if s == nil {
-					return SliceV(nil)
-				}
-				return out
+				// as the real package (cast.ToStringSlice returns a []string as it is): the caller gets
+				// the very slice that is stored, not a copy
+				return s
 			}
 		}
 		panic(pathAbort{"error", "viper.GetStringSlice on non-slice value"})
